@@ -135,6 +135,7 @@ int env_choice(int n, int costkind, const char *what)
     return c;
 }
 
+extern uint32_t ksim_fingerprint(void) __attribute__((weak));
 uint64_t model_fingerprint(void)
 {
     uint64_t h = 1469598103934665603ull; int i;
@@ -143,6 +144,7 @@ uint64_t model_fingerprint(void)
     for (i = 0; i < 8; i++) MIX(observes[i]);
     MIX(pthread_model_fp());
     MIX(ch_objects_acc);
+    if (ksim_fingerprint) MIX(ksim_fingerprint());
     MIX(vclock_ms);
     MIX(cur);
     return h;
@@ -163,6 +165,7 @@ static int thread_enabled(Thread *t)
 }
 
 /* pick the next thread to run; self = calling thread (still the baton holder).  Returns the chosen thread. */
+static int poll_timer_mode;
 static int pick_next(int self, int self_may_continue)
 {
     for (;;) {
@@ -184,6 +187,11 @@ static int pick_next(int self, int self_may_continue)
                 en[nen++] = i;
             }
         }
+        if (nen == 0) {     /* nothing can run: virtual time passes - polls with a time-out fire (each such thread is an alternative) */
+            for (i = 0; i < nthreads; i++) if (T[i].used && !T[i].finished && T[i].pend_kind == OP_POLL && T[i].poll_has_timeout && !T[i].poll_fired) en[nen++] = i;
+            if (nen) { int k; for (k = 0; k < nen; k++) T[en[k]].poll_fired = 0; }
+            poll_timer_mode = nen > 0;
+        } else poll_timer_mode = 0;
         if (nen == 0) {
             if (unfinished == 0) return -1;
             mc_violation("SCHED", "deadlock", "deadlock: no thread is enabled but %d thread(s) have not finished", unfinished);
@@ -207,6 +215,7 @@ static int pick_next(int self, int self_may_continue)
             if (ctl->verbose) mc_log("spurious wake-up of T%d", order[c] - 100);
             continue;
         }
+        if (poll_timer_mode) T[order[c]].poll_fired = 1;
         for (i = 0; i < nthreads; i++) if (i != order[c] && T[i].used && !T[i].finished && T[i].started && (!thread_enabled(&T[i]) || spin_blocked(&T[i]))) T[i].blocked_count++;
         return order[c];
     }
@@ -582,7 +591,6 @@ int mc_main(int argc, char **argv, const McHarness *hs, int nh)
     ctl = mmap(NULL, sizeof(Ctl), PROT_READ | PROT_WRITE, MAP_SHARED | MAP_ANONYMOUS, -1, 0);
     if (ctl == MAP_FAILED) { perror("mmap ctl"); return 2; }
     memset(ctl, 0, sizeof *ctl);
-    signal(SIGPIPE, SIG_IGN);
     mem_init(); mon_init();
     T[0].used = 1; T[0].started = 1; T[0].vc[0] = 1; nthreads = 1; my_tid = 0;
     set_stack_bounds(&T[0]);
